@@ -27,16 +27,13 @@ def _floyd_warshall_rust(
 
     # For undirected graphs, expand to bidirectional edges
     if not directed:
-        edge_set: set[tuple[int, int]] = set()
-        expanded: list[tuple[int, int, float]] = []
+        # Keep the lightest weight of each pair, in both directions (as the Python path does)
+        lightest: dict[tuple[int, int], float] = {}
         for u, v, w in edges:
-            if (u, v) not in edge_set:
-                expanded.append((u, v, w))
-                edge_set.add((u, v))
-            if (v, u) not in edge_set:
-                expanded.append((v, u, w))
-                edge_set.add((v, u))
-        edges = expanded
+            for key in ((u, v), (v, u)):
+                if key not in lightest or w < lightest[key]:
+                    lightest[key] = w
+        edges = [(u, v, w) for (u, v), w in lightest.items()]
 
     result = rust.floyd_warshall(n_nodes, edges)
 
